@@ -87,6 +87,7 @@ package loadbalance
 //@   prop C19
 //@   modifies syncmapp(sessions)
 //@   requires c != nil && sessions != nil
+//@   defs nopanic-bounds
 //@   ensures live: result != nil ==> hadkey(syncmapp(sessions), result) && !ufb("session.closed", result)
 //@   ensures nil-only-if-none-open: result == nil ==> foralls(s, getty.Session, hadkey(syncmapp(sessions), s) ==> ufb("session.closed", s))
 
